@@ -12,14 +12,29 @@ META = {
                    "free_once(_generated) (every get/free pair deletes exactly what it allocated, once, and clears), and "
                    "no_partial_op_fails(_concrete): in every state reachable by ANY finite API call sequence of the session model, the "
                    "std::string erase/insert/operator[] calls of the context, the candidate dereferences and page divisions meet their "
-                   "C++ preconditions. Everything outside the model is exercised only by ASan+UBSan runs: boundary-value API fuzzing "
+                   "C++ preconditions; geometry_reachable(_concrete), substr_in_range, slices_tile_input: in every reachable state the "
+                   "segments of the composition tile a prefix of its input (first starts at 0, each starts where the previous ends, "
+                   "start <= end <= |input|), so every input_.substr(seg.start, seg.end - seg.start) of Composition::GetCommitText / "
+                   "GetPreedit / GetScriptText / GetDebugText and ConcreteEngine::TranslateSegments is in range and unclipped; "
+                   "segmentation_loop_terminates, compose_loop_terminates, reachable_loop_terminates: the while loop of "
+                   "ConcreteEngine::CalculateSegmentation (abc + fallback segmentors) has a fuel-free big-step semantics, started on any "
+                   "contiguous composition it exits after finitely many rounds (each continuing round moves the current start strictly "
+                   "right, below |input|) with a unique result satisfying the loop's exit condition, and the model's fuel |input|+2 never "
+                   "cuts a run short. Everything outside the model is exercised only by ASan+UBSan runs: boundary-value API fuzzing "
                    "(whole int range keys/masks, size_t indices, dead and never-issued ids, double frees, watchdog) and every node of a "
                    "stock-like schema and of default.yaml type-mutated (10 kinds) and driven by a fixed history."),
     "level_note": ("Trusted: Lean kernel; translators gen/c01_api.py (regex walk of straight-line guards; positive `if (v) {…}` scopes are "
                    "treated as locally safe by the translator) and gen/keymaps.py; the session model's tie is C02's correspondence. NOT "
                    "proved: memory safety / exception safety / termination of unmodelled code (translators, OpenCC, regex, switcher, "
-                   "component constructors) — runtime-only, found by the sanitizer runs, which are a search, not a proof; termination of "
-                   "the C++ segmentation loop (the model uses fuel)."),
+                   "component constructors) — runtime-only, found by the sanitizer runs, which are a search, not a proof. The geometric "
+                   "theorems ASSUME TranslateGeo of the translators (a candidate produced for a segment ends at or after the segment's "
+                   "start; needed because Segment::Close moves the segment's end to the selected candidate's end): not proved of the real "
+                   "translators, monitored on every observation of the session harness and of the stock-component schema (candidate "
+                   "ends printed by the harness are > 0 and <= |input|, session_common.cand_ends). The substr calls of GetPreedit / "
+                   "GetScriptText whose position is the previous segment's selected candidate's end() rather than seg.start are covered "
+                   "only when that candidate ends where its segment ends (no upper bound on candidate ends is an invariant: a closed "
+                   "segment keeps its old menu). Loop termination is proved for the modelled segmentors (abc_segmentor, "
+                   "fallback_segmentor); other segmentors (punct, matcher, ascii, affix) are runtime-only."),
     "design_ref": "DESIGN.md §3 C01",
 }
 
@@ -202,7 +217,8 @@ def run(c):
                 "proof_failures": audit["failures"]})
     c.cov = cov
     c.assumptions = ["string arguments are non-null C strings (only session ids, indices, keycodes, masks and documented out-parameters are adversarial)",
-                     "one client thread"]
+                     "one client thread",
+                     "TranslateGeo (geometric theorems only): every candidate a translator produces for a segment ends at or after the segment's start"]
 
 
 def replay(c, r):
